@@ -392,12 +392,18 @@ def history_of(cases, k):
 
 def shrink(c, hbin, model, hist):
     """delta debugging on request lines: keep the judge failing (any line)"""
+    # with several network nodes the node a record lands on depends on the (random) identifier: retry
+    tries = 6 if (" network2 " in hist[0] or " network3 " in hist[0]) else 1
+
     def fails(h):
-        rc, out, err = c.run_lines(hbin, h, args=(c.scratch,), timeout=300)
-        if rc != 0:
-            return True
-        rc, j, _ = c.run_lines(model, [f"J {a} ;; {b}" for a, b in zip(h, out)])
-        return any(x != "1" for x in j)
+        for _ in range(tries):
+            rc, out, err = c.run_lines(hbin, h, args=(c.scratch,), timeout=300)
+            if rc != 0:
+                return True
+            rc, j, _ = c.run_lines(model, [f"J {a} ;; {b}" for a, b in zip(h, out)])
+            if any(x != "1" for x in j):
+                return True
+        return False
     h = list(hist)
     changed = True
     budget = 200
@@ -562,9 +568,12 @@ def main():
             if "in the storage" in why and small[-1].startswith("req "):
                 # show the consequence on what a request reads: replay the identifier that should have died
                 small = small + [f"req 9 {small[-1].split()[2]} old:0"]
-            rc, o2, _ = c.run_lines(hbin, small, args=(c.scratch,))
+            for _ in range(12):     # identifiers are random: with several network nodes a rerun may not hit the wrong node
+                rc, o2, _ = c.run_lines(hbin, small, args=(c.scratch,))
+                rc, j2, _ = c.run_lines(model, [f"J {x} ;; {y}" for x, y in zip(small, o2)])
+                if any(x != "1" for x in j2):
+                    break
             rc, m2, _ = c.run_lines(model, small)
-            rc, j2, _ = c.run_lines(model, [f"J {x} ;; {y}" for x, y in zip(small, o2)])
             c.violation("property predicate (Spec.lean) false on the implementation's answers: " + why,
                         {"history": small, "impl_output": o2, "model_output": m2, "judge": j2, "unshrunk_history": hist,
                          "replay_cmd": "bin/check C06 --replay <this file>"})
